@@ -82,8 +82,8 @@ def report_records(ck, cases, records, pid_note="", template_under_test=False):
 def run(tier, seed, replay):
     ck = vlib.Check("C04", tier, seed)
     ck.rule = ("cases = spec/MCWxmlSem.tla families F1 (every attribute family x value kind), F2 (nested structural "
-               "pairs), F3 (text piece sequences), F4 (if-chains), F5 (list kinds x keys x scope names) x 5-object data "
-               "pool, each in N concrete-syntax variants; non-trivial = distinct (source text, data) containing a binding")
+               "pairs), F3 (text piece sequences), F4 (if-chains), F5 (list kinds x keys x scope names), a slice of F8 (three-file groups: imported and local "
+               "definitions, includes) x 5-object data pool, each in N concrete-syntax variants; non-trivial = distinct (source text, data) containing a binding")
     ck.assumptions = ["runtime/refrt.js is a faithful port of ProcGenWrapper / RangeListManager",
                       "slot values are compared after String() (the protocol types them as string)"]
     rnd = vlib.rng(seed, "c04")
@@ -104,10 +104,26 @@ def run(tier, seed, replay):
                 seen.add(key)
                 cases.append({"files": c["files"], "data": c["data"], "tree": c["tree"], "family": "UD"})
         nvar = 2 if tier == "quick" else 6
+    gcases = [c for c in cases if c.get("family") == "F8"]
+    cases = [c for c in cases if c.get("family") != "F8"]
+    if not replay:
+        # `<template is>` / `<include>` reaching into OTHER files of the group (family F8: the referring file sorts before
+        # the files it imports, local definitions next to imported ones, definitions without children) - what is created
+        # must not depend on where in the bundle a file's entry stands
+        gres = vlib.tlc("MCWxmlSem", cfg="MCWxmlSem_F8", workers=8, timeout=900)
+        vlib.tlc_expect_ok(gres, "MCWxmlSem F8")
+        ck.add_tlc(gres)
+        gcases = [dict(c, family="F8") for c in gres.cases if tier != "quick" or rnd.random() < 0.3]
     records = semrun.replay(cases, rnd, nvariants=nvar)
     report_records(ck, cases, records)
+    if gcases:
+        grecords = semrun.replay(gcases, rnd, nvariants=nvar, main="d/a", prefix=False)     # (absolute references need the group root)
+        report_records(ck, gcases, grecords)
+        ck.notes.append("multi-file groups (F8): %d cases replayed" % len(gcases))
     # the same in a development-mode group: the same tree, plus the announced attribute names (WxmlSem!DevNames)
     dcases = cases if (replay or tier != "quick") else [c for c in cases if rnd.random() < 0.25]
+    if replay and not cases:
+        dcases = []
     drecords = semrun.replay(dcases, rnd, nvariants=1, dev=True)
     report_records(ck, dcases, drecords)
     ck.notes.append("development mode: %d cases replayed" % len(dcases))
